@@ -29,6 +29,9 @@ func exportedOnly(t *pgen.Type) bool {
 					}
 					n = e.Name
 				}
+				if n == "_" && !f.Embedded {
+					continue // blank fields are no part of the value: the go string simply leaves them out
+				}
 				if n == "" || !(n[0] >= 'A' && n[0] <= 'Z') {
 					return true
 				}
@@ -74,10 +77,15 @@ func checkC06(c *Ctx) {
 	c.Run.Assume = []string{"canonical encoding identifies +0 and -0 (like ==)", "records whose type needs two imported packages of the same name are skipped: no importing package can name both"}
 	c.Run.Floor = 40
 	sel := shapeSel{
-		ExtraTypes: commonExtras,
-		Forms:      []string{"top", "field"}, QuickDeep: 60, QuickRand: 20, ThorRand: 300, BatchSize: 44,
+		// maps whose keys hold pointers are printed too (each key an expression that allocates): in scope
+		// here as in C05; the canonical encoding compares such maps by the contents their keys point to
+		ExtraTypes: func(s *pgen.Std) []*pgen.Type {
+			sk := s.U.DeclareAs("", "SKP", pgen.StructOf(pgen.F("P", pgen.Ptr(pgen.B("int"))), pgen.F("N", pgen.B("int"))))
+			return append(commonExtras(s), pgen.Map(pgen.Ptr(pgen.B("int")), pgen.B("string")), pgen.Map(sk, pgen.B("int")), pgen.Map(pgen.Ptr(s.SV), pgen.Slice(pgen.B("int"))))
+		},
+		Forms: []string{"top", "field"}, QuickDeep: 60, QuickRand: 20, ThorRand: 300, BatchSize: 44,
 		KeepShape: func(t *pgen.Type) bool {
-			if !behaviouralShape(t) || !exportedOnly(t) {
+			if !exportedOnly(t) {
 				return false
 			}
 			seenDup := 0
